@@ -24,6 +24,8 @@ pub enum Act {
     SnapRead(Vec<(&'static str, &'static str)>),
     /// snapshot read of the keys, a scheduling point, then the same reads again through the same snapshot (C05)
     SnapReadTwice(Vec<(&'static str, &'static str)>),
+    /// snapshot read of the keys; the snapshot stays open and is read again after every thread has finished (C05)
+    SnapHold(Vec<(&'static str, &'static str)>),
     /// one forward scan over a keyspace
     Scan(&'static str),
     Rotate(&'static str),
@@ -53,6 +55,11 @@ pub struct VisBody {
     pub threads: Vec<Vec<Act>>,
     /// extra clauses evaluated on the final state
     pub finals: Finals,
+}
+
+/// bodies whose name contains "[jrot]" run with the journal-position override on (every flush rotates the journal)
+fn wants_jrot(name: &str) -> bool {
+    name.contains("[jrot]")
 }
 
 #[derive(Clone, Copy, PartialEq, Debug, Default)]
@@ -121,8 +128,11 @@ impl Body for VisBody {
         for ks in &self.prerotate {
             kss[ks].rotate_memtable().expect("prep rotate");
         }
+        crate::sched::GLOBAL_FAKE_JOURNAL_POS.store(if wants_jrot(self.name) { 65_000_000 } else { 0 }, Ordering::Relaxed);
         let seen: Arc<Mutex<Vec<Seen>>> = Arc::new(Mutex::new(vec![]));
         let errors: Arc<Mutex<Vec<String>>> = Arc::new(Mutex::new(vec![]));
+        #[allow(clippy::type_complexity)]
+        let held: Arc<Mutex<Vec<(fjall::Snapshot, Vec<(&'static str, &'static str)>, Vec<(String, String, String)>)>>> = Arc::new(Mutex::new(vec![]));
         let done = Arc::new(AtomicUsize::new(0));
         let n = self.threads.len();
         let mut handles = vec![];
@@ -133,6 +143,7 @@ impl Body for VisBody {
             let acts = acts.clone();
             let seen = seen.clone();
             let errors = errors.clone();
+            let held = held.clone();
             let done = done.clone();
             handles.push(spawn_client(NAMES[tid], move || {
                 let mut kss = kss;
@@ -197,6 +208,15 @@ impl Body for VisBody {
                                 }
                                 seen.lock().unwrap().push((tid, "snapshot".into(), first));
                             }
+                            Act::SnapHold(keys) => {
+                                let snap = db.inner().snapshot();
+                                let mut first = vec![];
+                                for (ks, k) in keys {
+                                    first.push((ks.to_string(), k.to_string(), val(snap.get(&kss[ks], *k))));
+                                }
+                                seen.lock().unwrap().push((tid, "snapshot".into(), first.clone()));
+                                held.lock().unwrap().push((snap, keys.clone(), first));
+                            }
                             Act::Scan(ks) => {
                                 let mut out = vec![];
                                 for g in kss[ks].iter() {
@@ -243,8 +263,20 @@ impl Body for VisBody {
             let final_state = final_state.clone();
             let finals = self.finals;
             let dirp = dir.to_path_buf();
+            let held = held.clone();
+            let errors = errors.clone();
             handles.push(spawn_client("closer", move || {
                 client_block_until(&|| done.load(Ordering::SeqCst) == n, "closer.wait_clients");
+                // snapshots that were kept open are read again: same answers as when they were opened
+                for (snap, keys, first) in held.lock().unwrap().drain(..) {
+                    let mut second = vec![];
+                    for (ks, k) in &keys {
+                        second.push((ks.to_string(), k.to_string(), val(snap.get(&kss[ks], *k))));
+                    }
+                    if first != second {
+                        errors.lock().unwrap().push(format!("NOT-REPEATABLE snapshot instant {}: first {first:?}, after all threads finished {second:?}", snap.seqno()));
+                    }
+                }
                 // (keyspace, key, point read, scan value) for every key of the universe
                 let mut out = vec![];
                 for (name, h) in &kss {
